@@ -109,6 +109,8 @@ def brute_force(desc, with_var_costs=True):
 def close(a, b, tol=1e-9):
     if a == b:
         return True
+    if isinstance(a, int) and isinstance(b, int):
+        return False  # integer costs are exact: no tolerance (a relative one would hide unit differences at 2^53)
     try:
         if math.isinf(a) or math.isinf(b) or math.isnan(a) or math.isnan(b):
             return False
